@@ -45,9 +45,9 @@ theorem topo_checker_sound (g : PGraph) (h : topoOk g = true) :
     exactly one source operator producing tensors of the same names, that source operator is equal to it
     (`opEq`: builtin code, custom code, version, options, custom options, operand wiring, results), and no source
     operator is the match of two output operators. -/
-theorem match_exactly_once (src out : PGraph) (byp : List Nat) (h : matchOk src out byp = true) :
+theorem match_exactly_once (src out : PGraph) (h : matchOk src out = true) :
     (∀ (k : Nat) (op : POp), out.ops[k]? = some op → isEthosU op = false →
-       ∃ (j : Nat) (sop : POp), src.ops[j]? = some sop ∧ outKey src sop = outKey out op ∧ opEq src out byp k sop op = true ∧
+       ∃ (j : Nat) (sop : POp), src.ops[j]? = some sop ∧ outKey src sop = outKey out op ∧ opEq src out k sop op = true ∧
          ∀ (j' : Nat) (sop' : POp), src.ops[j']? = some sop' → outKey src sop' = outKey out op → j' = j) ∧
     (∀ (k₁ k₂ j : Nat), (k₁, j) ∈ matchTable src out → (k₂, j) ∈ matchTable src out → k₁ = k₂) := by
   unfold matchOk at h
@@ -79,8 +79,8 @@ theorem match_exactly_once (src out : PGraph) (byp : List Nat) (h : matchOk src 
 
 /-- The verdict's problem list is empty only if the Bool form used above holds (so `match_exactly_once` applies to
     every accepted pair). -/
-theorem matchProblems_nil_matchOk (src out : PGraph) (byp : List Nat) (h : matchProblems src out byp = []) :
-    matchOk src out byp = true := by
+theorem matchProblems_nil_matchOk (src out : PGraph) (h : matchProblems src out = []) :
+    matchOk src out = true := by
   unfold matchProblems at h
   rw [List.append_eq_nil_iff, List.flatMap_eq_nil_iff, List.map_eq_nil_iff] at h
   unfold matchOk
@@ -107,13 +107,13 @@ theorem matchProblems_nil_matchOk (src out : PGraph) (byp : List Nat) (h : match
 
 /-- Coverage: if the coverage scan accepts, every source operator that reaches a subgraph output is preserved at
     most once; a preserved operator lies in no Ethos-U slice; an operator that is neither preserved nor absorbed is
-    foldable at compile time or a bypassed identity whose result no longer exists in the output. -/
-theorem coverage_checker_sound (src out : PGraph) (table : List (Nat × Nat)) (abs : List Absorb) (byp : List Nat)
-    (h : coverOk src out table abs byp = true) :
+    foldable at compile time. -/
+theorem coverage_checker_sound (src : PGraph) (table : List (Nat × Nat)) (abs : List Absorb)
+    (h : coverOk src table abs = true) :
     ∀ j ∈ reach src,
       matchCount table j ≤ 1 ∧
       (matchCount table j = 1 → ∀ a ∈ abs, j ∉ a.ops) ∧
-      (matchCount table j = 0 → (∀ a ∈ abs, j ∉ a.ops) → j ∈ foldable src ∨ (j ∈ byp ∧ bypassGone src out j = true)) := by
+      (matchCount table j = 0 → (∀ a ∈ abs, j ∉ a.ops) → j ∈ foldable src) := by
   intro j hj
   unfold coverOk at h
   rw [List.all_eq_true] at h
@@ -143,14 +143,12 @@ theorem coverage_checker_sound (src out : PGraph) (table : List (Nat × Nat)) (a
         split at h1
         · simp at h1
         · rename_i h3
-          simp only [hm0, beq_self_eq_true, hemp, Bool.true_and, Bool.and_eq_true, Bool.not_eq_eq_eq_not,
-            Bool.not_true, not_and, Bool.not_eq_false] at h3
           by_cases hf : (foldable src).contains j = true
-          · exact Or.inl (List.contains_iff_mem.mp hf)
-          · right
-            have := h3 (by simpa using hf)
-            simp only [List.contains_iff_mem] at this
-            exact this
+          · exact List.contains_iff_mem.mp hf
+          · exfalso
+            apply h3
+            simp only [hm0, beq_self_eq_true, hemp, Bool.true_and, Bool.and_eq_true, Bool.not_eq_true']
+            simpa using hf
 
 /-- The fuelled fixpoints are certified, not trusted: a slice that passes `sliceClosed` contains every producer of
     a start tensor and, with every member, the producers of its operands that are not stop tensors. With
@@ -248,9 +246,9 @@ example : (check demoSrc demoOut).pre = [] ∧ (check demoSrc demoOut).problems 
 /-- operators emitted in reverse order are rejected by the topological scan -/
 example : topoOk { demoOut with ops := demoOut.ops.reverse } = false := by decide +kernel
 /-- a version bump, lost custom options, or a changed zero point of a subgraph output are rejected -/
-example : matchOk demoSrc { demoOut with ops := demoOut.ops.map fun o => if isEthosU o then o else { o with version := 3 } } [] = false := by
+example : matchOk demoSrc { demoOut with ops := demoOut.ops.map fun o => if isEthosU o then o else { o with version := 3 } } = false := by
   decide +kernel
-example : matchOk demoSrc { demoOut with ops := demoOut.ops.map fun o => if isEthosU o then o else { o with customOpts := "" } } [] = false := by
+example : matchOk demoSrc { demoOut with ops := demoOut.ops.map fun o => if isEthosU o then o else { o with customOpts := "" } } = false := by
   decide +kernel
 def yZeroPointLost : PTensor := { tQ "79" [1, 4, 4, 8] with quant := some ⟨[1036831949], [0], [], [], 0⟩ }
 example : (interfaceProblems demoSrc { demoOut with tensors := demoOut.tensors.set 6 yZeroPointLost }).map (·.kind) =
@@ -266,11 +264,11 @@ example : interfaceProblems { demoSrc with tensors := demoSrc.tensors.set 4 (tMM
     { demoOut with tensors := demoOut.tensors.set 6 (tMM "79" 3240099840 1095237632) } = [] := by decide +kernel
 /-- an omitted optional operand in the middle is compared by position: [a, -1, c] written as [a, c] is rejected,
     while a trailing -1 is insignificant -/
-example : (operandProblems demoSrc demoOut [] 1 32 [some 3, none, some 0] [some 0, some 5]).map (·.kind) = ["operand-count"] := by
+example : (operandProblems demoSrc demoOut 1 32 [some 3, none, some 0] [some 0, some 5]).map (·.kind) = ["operand-count"] := by
   decide +kernel
-example : (operandProblems demoSrc demoOut [] 1 32 [some 3, none, some 3] [some 0, some 0, some 0]).map (·.kind) = ["operand-presence"] := by
+example : (operandProblems demoSrc demoOut 1 32 [some 3, none, some 3] [some 0, some 0, some 0]).map (·.kind) = ["operand-presence"] := by
   decide +kernel
-example : operandProblems demoSrc demoOut [] 1 32 [some 3, none] [some 0] = [] := by decide +kernel
+example : operandProblems demoSrc demoOut 1 32 [some 3, none] [some 0] = [] := by decide +kernel
 /-- a CPU operator that silently disappears is reported by the coverage scan -/
 example : ((check demoSrc { demoOut with ops := demoOut.ops.take 1, outputs := [0] }).problems.map (·.kind)).contains "operator-lost" = true := by
   decide +kernel
